@@ -353,6 +353,12 @@ def judge_c10(case, lab):
     if pre and not (e["ok"] == v["ok"] == k["ok"]):
         res.bad("agree", "bodies total and values in domain, yet evaluate: %s | validate: %s | keys: %s" % (
             observe.describe(e), observe.describe(v), observe.describe(k)))
+    # validation and key inspection evaluate only what chooses a branch (the specification's ValRuns)
+    allowed = set(a["valruns"])
+    for what in ("validate", "keys"):
+        ran = sorted({ev[3] for ev in ob.get(what)["log"] if ev[0] in ("body", "callback", "apply", "effect") and ev[3] and ev[3] not in allowed})
+        if ran and benign(a["validate"]) and not a["swallows"]:
+            res.bad("selectors-only-" + what, "%s ran callables of nodes %s; only %s are needed to choose a branch" % (what, ran, sorted(allowed)))
     if v["ok"] and not e["ok"] and e.get("cls") == "KeyNotFound" and not a["swallows"]:
         res.bad("validate-guards", "validate passed but evaluate fails for missing option %r" % e.get("key"))
     return res
